@@ -357,25 +357,41 @@ def _ctor_stamps(facts, cb, du, st, ret_src):
 
 
 def _keep_is(e, truth, rc, sb, sdu, rr):
-    """is `(e == truth)` equivalent to  num_seconds(sds(now, row.timestamp)) < delete_after ?"""
-    if e[0] != "bin":
-        return False
-    op, l, r = e[1], e[2], e[3]
+    """is `(e == truth)` equivalent to  num_seconds(now - row.timestamp) < delete_after ?
+    accepted spellings: signed_duration_since / the `-` operator for the difference; the comparison on whole seconds
+    (`num_seconds(d) < limit`, mirrored, negated) or on durations (`d < TimeDelta::seconds(limit)`, which agrees with the
+    whole-second comparison for every d because the limit is a whole number of seconds)."""
+    def is_diff(y):
+        if y[0] != "call" or len(y[2]) != 2:
+            return False
+        nm = y[1]
+        if not (nm.endswith("signed_duration_since") or (nm.endswith("::sub") and "DateTime" in nm)):
+            return False
+        a_, b_ = y[2]
+        a_now = a_[0] == "capture" and _capture_is(a_[1], "now", rc, sb, sdu, rr)
+        b_ts = b_[0] == "arg" and b_[2][-1:] == ("timestamp",)
+        return a_now and b_ts
 
     def is_elapsed(x):
-        if not (x[0] == "call" and x[1].endswith("num_seconds")):
-            return False
-        y = x[2][0]
-        if not (y[0] == "call" and y[1].endswith("signed_duration_since")):
-            return False
-        a, b = y[2]
-        a_now = a[0] == "capture" and _capture_is(a[1], "now", rc, sb, sdu, rr)
-        b_ts = b[0] == "arg" and b[2][-1:] == ("timestamp",)
-        return a_now and b_ts
+        return x[0] == "call" and x[1].endswith("num_seconds") and len(x[2]) == 1 and is_diff(x[2][0])
 
     def is_limit(x):
         return x[0] == "capture" and _capture_is(x[1], "delete_after", rc, sb, sdu, rr)
 
+    def is_limit_duration(x):
+        return x[0] == "call" and x[1].split("::")[-1] == "seconds" and ("TimeDelta" in x[1] or "Duration" in x[1]) and len(x[2]) == 1 and is_limit(x[2][0])
+
+    if e[0] == "call" and e[1].split("::")[-1] in ("lt", "gt", "le", "ge") and "PartialOrd" in e[1] and len(e[2]) == 2:
+        op = {"lt": "Lt", "gt": "Gt", "le": "Le", "ge": "Ge"}[e[1].split("::")[-1]]
+        l, r = e[2]
+        if is_diff(l) and is_limit_duration(r):
+            return (op == "Lt" and truth) or (op == "Ge" and not truth)
+        if is_limit_duration(l) and is_diff(r):
+            return (op == "Gt" and truth) or (op == "Le" and not truth)
+        return False
+    if e[0] != "bin":
+        return False
+    op, l, r = e[1], e[2], e[3]
     if is_elapsed(l) and is_limit(r):
         return (op == "Lt" and truth) or (op == "Ge" and not truth)
     if is_limit(l) and is_elapsed(r):
